@@ -35,6 +35,7 @@ def requests():
         Request(D + "ScatterSimulation.cxx", fn=["stir::ScatterSimulation::.*"], files=["/repo/src/scatter_buildblock/.*", "/repo/src/include/stir/scatter/.*"]),
         Request(D + "sample_scatter_points.cxx", fn=["stir::ScatterSimulation::.*"], files=["/repo/src/scatter_buildblock/.*"]),
         Request(D + "scatter_detection_modelling.cxx", fn=["stir::ScatterSimulation::.*"], files=["/repo/src/scatter_buildblock/.*"]),
+        Request(D + "SingleScatterSimulation.cxx", fn=["stir::SingleScatterSimulation::.*"], files=["/repo/src/scatter_buildblock/.*"]),
     ]
 
 
@@ -260,7 +261,7 @@ def rule_d(ctx, fns):
 
     lazy = {}
     for f in fns:
-        if f.body is None or not f.is_const:
+        if f.body is None or f.is_ctor:
             continue
         for g in f.walk():
             if g.k != "IfStmt" or len(g.c) < 2:
@@ -289,6 +290,13 @@ def rule_d(ctx, fns):
                 if ids and CFG(f).paths_avoiding([(CFG(f).entry, -1)], lambda x: x.i in ids) is None:
                     resetters.add(f.qn)
                     changed = True
+        # alternative design: set_up() resets M on every path (use requires set-up, and every setter clears the set-up flag - both
+        # decided above), so whatever was computed for the previous configuration is dropped before the next use
+        by_setup = [f for f in fns if f.short == "set_up" and f.qn in resetters]
+        if by_setup:
+            ctx.ob("C16.d-invalidation", by_setup[0].qn, "lazy:%s-reset-by-set_up" % mname, True, by_setup[0].where(), "the lazily computed %s (derived from %s) is reset by set_up() on every path" % (mname, sorted(inputs)))
+            n += 1
+            continue
         done = set()
         for f in fns:
             if f.body is None or not f.cfg_raw or f.is_const or f.is_ctor or f.d.get("dtor") or (f.file, f.line) in done:
@@ -357,7 +365,7 @@ def run(ctx):
     rule_ab(ctx, f0[0])
     rule_c(ctx, uniq(us[1].functions))
     allf = uniq([f for u in us[1:] for f in u.functions])
-    rule_d(ctx, allf)
+    rule_d(ctx, allf + [f for f in uniq(us[0].functions) if (f.file, f.line) not in {(g.file, g.line) for g in allf}])
     ctx.require_count("C16.a-exchange-symmetry", 3)
     ctx.require_count("C16.b-linear-in-activity", 3)
     ctx.require_count("C16.c-cache-equivalence", 2)
